@@ -120,6 +120,46 @@ def main():
 
 
 NEEDS = {
+    'C01-5': 'PUT/POST for a not-yet-existing consumer whose first attempt is retried server-side after a racing write bumped the provider (two cooperating edits)',
+    'C01-6': 'old microversion (< 1.28): allocate, shrink the inventory / change step_size, re-PUT the identical allocations',
+    'C02-5': 'candidate for a string-suffixed group (>= 1.34) sent back unchanged including its mappings',
+    'C02-6': 'microversion 1.10/1.11 (list body) with a candidate where one provider supplies two classes; check what is stored after the claim',
+    'C03-5': 'repeated same_subtree with overlapping suffix sets and three suffixed groups (>= 1.36)',
+    'C03-6': 'microversion 1.10/1.11, a class from one provider lying between two classes of another in class-id order',
+    'C04-5': '>= 1.28: write naming a non-existent consumer with a non-null generation (PUT, DELETE, PUT again with the remembered generation)',
+    'C04-6': 'POST /allocations with >= 2 consumers, a schema-valid non-UUID key (36 hex digits) not in first position, earlier consumer new',
+    'C05-5': 'PUT inventories/{rc} with the current generation while another provider write commits between its check and its write',
+    'C05-6': 'POST /reshaper naming >= 2 providers with a stale generation on one that is not the last key',
+    'C06-5': 'two writes to one consumer sharing a provider; loser preempted after loading providers; server-side retry re-reads the consumer',
+    'C06-6': '>= 1.38: write with a non-null generation for a consumer that no longer exists (write, read generation, clear, write)',
+    'C07-5': '>= 1.38: two null-generation writers of a new consumer with different consumer_type; four context switches',
+    'C07-6': 'request that auto-creates a consumer and then loses on a generation conflict only a race produces (two-provider PUT / POST with a raced second consumer)',
+    'C08-5': 'DELETE a custom class all of whose inventories cannot take one more unit (fully used / fully reserved / step_size > 1)',
+    'C08-6': 'POST /allocations or reshaper introducing a consumer whose key is not canonically spelled (upper-case hex)',
+    'C09-5': 'parent-changing PUT on a provider with descendants + one deadlock after the parent block ran (retry with mutated arguments)',
+    'C09-6': 'POST child under P suspended between parent lookup and insert while a PUT moving P commits',
+    'C10-5': 'PUT provider that really changes the parent (first parenting >= 1.14, re-/un-parenting >= 1.37)',
+    'C10-6': 'server-side retry budget exhausted (allocation_conflict_retry_count=1, or two providers with the conflict on the second)',
+    'C11-5': 'PUT provider at >= 1.14 for a child with a body carrying only "name"',
+    'C11-6': 'one PUT inventories / reshaper body with >= 2 classes where an earlier class sets an optional field the later one omits',
+    'C12-5': 'POST /reshaper naming a not-yet-existing consumer, refused inside the inventories loop (stale provider generation / unknown provider)',
+    'C12-6': 'project and user row ids diverged, then a write changing only consumer_type (>= 1.38)',
+    'C13-5': 'the same trait in two single-trait required terms (required=T,T or repeated at 1.39)',
+    'C13-6': '>= 1.32: repeated member_of where an earlier value forbids every aggregate of a later positive value',
+    'C14-5': 'PUT provider moving it to another parent INSIDE its tree at microversion 1.14-1.36',
+    'C14-6': 'string-suffixed in_tree key at microversion 1.31/1.32',
+    'C15-5': 'project with an untyped (< 1.38) and a typed consumer, GET /usages at >= 1.38 without consumer_type',
+    'C15-6': 'member_of=in:<known>,<never seen> (or !in:) on providers listing or candidates',
+    'C16-5': 'policy file overriding only placement:resource_providers:show + POST /resource_providers at >= 1.20',
+    'C16-6': 'policy file overriding the base rule admin_api',
+    'C17-5': '>= 1.38, new consumer, new consumer type + any database failure at the consumer_types statements',
+    'C17-6': 'retryable deadlock exactly at the consumer generation UPDATE of an allocation write',
+    'C18-5': 'PUT aggregates that both adds and removes; process dies between the two commits',
+    'C18-6': 'POST /resource_providers without parent; process dies between the insert commit and the root update commit',
+    'C19-5': 'class name containing a non-ASCII decimal digit in a JSON body (POST, or rename at 1.2-1.6)',
+    'C19-6': '>= 2 custom classes, delete one that is not the newest, then create a new name',
+    'C20-5': 'limit given more than once with different values',
+    'C20-6': 'randomisation off, >= 1.29, nested providers, limit below the per-tree combinations, class requested by unsuffixed and suffixed group',
     'C01-3': 'POST /reshaper giving a provider "inventories": {} while the allocations section still places amounts on it',
     'C01-4': 'inventory with reserved > 0 and allocation_ratio > 1 and an allocation landing between total*ratio-reserved and (total-reserved)*ratio',
     'C02-3': 'unsuffixed group asking >= 3 classes where a prefix (in query order) has no common tree and a later class fits somewhere',
